@@ -1,6 +1,7 @@
 #include "common.h"
 
 #include <fcntl.h>
+#include <pthread.h>
 #include <signal.h>
 #include <sys/mman.h>
 #include <unistd.h>
@@ -209,6 +210,46 @@ static void json_escape(FILE* f, const char* s) {
 // boundary: the per-buffer misalignments rotate independently, so without this no case would ever see all of its
 // buffers aligned at once - the most common situation in real use, and the one an aligned fast path keys on
 int g_case_aligned;
+// one case in eight places all its guarded buffers next to each other in one arena at ascending addresses (first
+// allocated = lowest), one in eight at descending addresses: which of two operands lies lower in memory, and how far
+// apart they are, must not matter (code that compares or subtracts pointers of different operands sees both orders)
+int g_case_place;
+static uint8_t* arena_base;
+static const size_t ARENA_SIZE = (size_t)1 << 31;
+static size_t arena_lo, arena_hi;
+static long arena_live;
+static pthread_mutex_t arena_mu = PTHREAD_MUTEX_INITIALIZER;
+static uint8_t* arena_take(size_t total) {
+  uint8_t* r = 0;
+  pthread_mutex_lock(&arena_mu);
+  if (!arena_base) {
+    void* m = mmap(0, ARENA_SIZE, PROT_READ | PROT_WRITE, MAP_PRIVATE | MAP_ANONYMOUS | MAP_NORESERVE, -1, 0);
+    if (m != MAP_FAILED) {
+      arena_base = m;
+      arena_lo = 0;
+      arena_hi = ARENA_SIZE;
+    }
+  }
+  if (arena_base) {
+    if (arena_live == 0) {  // nothing of an earlier case is alive: start again from the ends
+      arena_lo = 0;
+      arena_hi = ARENA_SIZE;
+    }
+    total = (total + 63) & ~(size_t)63;
+    if (arena_hi - arena_lo >= total + 4096) {
+      if (g_case_place == 1) {
+        r = arena_base + arena_lo;
+        arena_lo += total;
+      } else {
+        arena_hi -= total;
+        r = arena_base + arena_hi;
+      }
+      arena_live++;
+    }
+  }
+  pthread_mutex_unlock(&arena_mu);
+  return r;
+}
 int case_begin(const char* key, const char* fmt, ...) {
   if (in_case) harness_fail("case_begin inside a case (%s)", cur_key);
   cur_idx++;
@@ -230,6 +271,7 @@ int case_begin(const char* key, const char* fmt, ...) {
   }
   cur_hash = h;
   g_case_aligned = ((h >> 9) & 3) == 0;
+  g_case_place = g_case_aligned ? 0 : (((h >> 11) & 7) == 0 ? 1 : (((h >> 11) & 7) == 1 ? 2 : 0));
   rng_seed(&cur_rng, G.seed ^ hash_bytes(G.prop, strlen(G.prop), 3), h);
   cur_note[0] = 0;
   cur_viols = 0;
@@ -250,6 +292,7 @@ void case_end(int nontrivial) {
   if (!in_case) harness_fail("case_end outside a case");
   n_eval++;
   if (g_case_aligned) cnt("cases_with_every_buffer_64B_aligned", 1);
+  if (g_case_place) cnt(g_case_place == 1 ? "cases_with_buffers_adjacent_ascending" : "cases_with_buffers_adjacent_descending", 1);
   if (nontrivial) hset_add(&nontrivial_cases, cur_hash);
   cntf("key:%s", 1, cur_key);
   // write a sample record for the first case of each key (bounded)
@@ -410,10 +453,13 @@ void* gb_alloc(gbuf_t* g, size_t n, size_t align, size_t mis, size_t guard) {
     mis = 0;
     if (align < 64) align = 64;
   }
+  g->arena = 0;
+  if (g_case_place) guard = 256;
   g->guard = guard;
   g->n = n;
   g->total = guard + align + mis + n + guard + 64;
-  if (posix_memalign((void**)&g->base, 64, g->total)) harness_fail("out of memory (%zu bytes)", g->total);
+  if (g_case_place && (g->base = arena_take(g->total)) != 0) g->arena = 1;
+  else if (posix_memalign((void**)&g->base, 64, g->total)) harness_fail("out of memory (%zu bytes)", g->total);
   uintptr_t u = (uintptr_t)g->base + guard;
   u = (u + align - 1) & ~(uintptr_t)(align - 1);
   g->p = (uint8_t*)u + mis;
@@ -449,7 +495,12 @@ int gb_check(gbuf_t* g, long* where) {
 void gb_free(gbuf_t* g) {
   if (!g->base) return;
   VP_UNPOISON(g->base, g->total);
-  free(g->base);
+  if (g->arena) {
+    pthread_mutex_lock(&arena_mu);
+    arena_live--;
+    pthread_mutex_unlock(&arena_mu);
+  } else
+    free(g->base);
   g->base = 0;
   g->p = 0;
 }
